@@ -216,6 +216,9 @@ def run_child(scens, cfg, idxs, reorder):
     pid = os.fork()
     if pid == 0:
         os.close(r)
+        import resource, signal
+        resource.setrlimit(resource.RLIMIT_AS, (6 << 30, 6 << 30))
+        signal.alarm(600)
         try:
             child(scens, cfg, idxs, wfd, reorder)
         finally:
@@ -236,6 +239,8 @@ def run_child(scens, cfg, idxs, reorder):
 
 
 def main():
+    classes()                        # import pysph before forking
+    import pysph.base.utils          # noqa: F401
     scens = [json.loads(l) for l in open(sys.argv[1])]
     outp = sys.argv[2]
     cfgs = json.load(open(sys.argv[3]))
